@@ -455,7 +455,10 @@ pub fn check(prop: &dyn Prop, o: &CheckOpts) -> CheckReport {
                 let idx = read_progress(&outdir, r.shard).unwrap_or(u64::MAX);
                 crashes.push((r.shard, idx, how));
                 r.skip.push(idx);
-                if r.skip.len() > 6 || idx == u64::MAX {
+                // crash budget: a few crashes per shard and per batch are chased (the shard is re-run
+                // without the crashing index); beyond that the shard is abandoned - the violation is
+                // established already and every further one costs a watchdog period
+                if r.skip.len() > 3 || crashes.len() > 6 || idx == u64::MAX {
                     truncated = true;
                     running.swap_remove(i);
                     continue;
@@ -511,7 +514,12 @@ pub fn check(prop: &dyn Prop, o: &CheckOpts) -> CheckReport {
     }
 
     // confirm crashes (abort / hang) in a fresh process each
+    let mut confirmed_sigs = 0;
     for (shard, idx, how) in &crashes {
+        if confirmed_sigs >= 3 {
+            break;
+        }
+        confirmed_sigs += 1;
         if *idx == u64::MAX {
             eprintln!("HARNESS ERROR: worker {} died before its first run: {}", shard, how);
             return CheckReport { exit: 2, outdir };
